@@ -23,6 +23,8 @@ CONSTANTS
   MaxCrashes = 2
   RestartRuns <- MCRestarts
   FailSets <- MCFailNone
+  Jumps <- MCJumpNone
+  MaxJumps = 0
   Mut = "none"
 INVARIANT NoViolation
 VIEW View
